@@ -7,5 +7,6 @@ CONSTANTS
   NVK = 1
   Kinds = {"val", "del"}
   L0L0KeepsTombstones = TRUE
+  BaseSkip = "none"
   MaxId = 7
 INVARIANTS ReadStable Retention Structure NoInvention
